@@ -208,7 +208,7 @@ def check(ctx):
         aad = repo.method(fac, "all_automation_devices")
         members = [ast.unparse(e) for n in ast.walk(aad.node) if isinstance(n, ast.List) for e in n.elts]
         init_none = set()
-        for m in repo.cls(fac).methods.values():
+        for m in repo.all_methods(fac).values():
             for n in ast.walk(m.node):
                 if isinstance(n, (ast.Assign, ast.AnnAssign)):
                     tg = n.targets[0] if isinstance(n, ast.Assign) else n.target
@@ -225,7 +225,7 @@ def check(ctx):
                 attr = r.split(".")[-1]
                 if attr in init_none:
                     # when is it assigned non-None?
-                    for m in repo.cls(fac).methods.values():
+                    for m in repo.all_methods(fac).values():
                         g = cfg_of(m)
                         for n in g.stmt_nodes():
                             if isinstance(n.ast, ast.Assign) and ast.unparse(n.ast.targets[0]) == f"self.{attr}" and not (isinstance(n.ast.value, ast.Constant) and n.ast.value.value is None):
@@ -461,7 +461,7 @@ def check(ctx):
     rc = repo.cls("Reminder")
     # reminders as they come off the wire: decode with the protocol handler, build the facade's Reminder
     # objects through their own constructor, then evaluate every read-only member
-    members = [m for m in rc.methods.values() if m.is_property and m.name != "monitor"] + [rs]
+    members = [m for m in repo.all_methods(rc).values() if m.is_property and m.name != "monitor"] + [rs]
     n_eval = 0
     for t in range(0, 8):
         for days in (-400, -1, 0, 1, 687):
